@@ -937,45 +937,63 @@ func (r *c07Run) invalid(s c07Step) bool {
 	pick := func(ids []uint64) uint64 { return ids[s.C%len(ids)] }
 	var ch c07Change
 	why := ""
-	switch variant := s.A % 7; {
-	case variant == 0 && len(r.model.removed) > 0 && sp != nil:
-		var ids []uint64
-		for id := range r.model.removed {
-			ids = append(ids, id)
-		}
-		sort.Slice(ids, func(i, j int) bool { return ids[i] < ids[j] })
-		ch, why = c07Change{[]string{"add-voter", "add-nonvoting", "add-witness"}[s.C%3], pick(ids), sp.Addr}, "re-adds-removed-replica"
-	case variant == 1:
+	members := append(append(r.model.voters(), r.model.byRole(roleNonVoting)...), r.model.byRole(roleWitness)...)
+	kinds3 := []string{"add-voter", "add-nonvoting", "add-witness"}
+	// the variants that apply to the current membership; one of them is drawn
+	var variants []func()
+	if len(r.model.removed) > 0 && sp != nil {
+		variants = append(variants, func() {
+			var ids []uint64
+			for id := range r.model.removed {
+				ids = append(ids, id)
+			}
+			sort.Slice(ids, func(i, j int) bool { return ids[i] < ids[j] })
+			ch, why = c07Change{kinds3[s.C%3], pick(ids), sp.Addr}, "re-adds-removed-replica"
+		})
+		// (weighted: the rule the statement names first)
+		variants = append(variants, variants[len(variants)-1])
+	}
+	variants = append(variants, func() {
 		// a new id at the address of an existing member
-		ids := append(append(r.model.voters(), r.model.byRole(roleNonVoting)...), r.model.byRole(roleWitness)...)
-		ch, why = c07Change{[]string{"add-voter", "add-nonvoting", "add-witness"}[s.C%3], r.nextID, r.model.addr[pick(ids)]}, "address-already-used"
+		ch, why = c07Change{kinds3[s.C%3], r.nextID, r.model.addr[pick(members)]}, "address-already-used"
 		r.nextID++
-	case variant == 2:
+	}, func() {
 		ch, why = c07Change{"add-nonvoting", pick(r.model.voters()), ""}, "full-member-as-nonvoting"
 		ch.addr = r.model.addr[ch.rid]
-	case variant == 3:
+	}, func() {
 		ch, why = c07Change{"add-witness", pick(r.model.voters()), ""}, "full-member-as-witness"
 		ch.addr = r.model.addr[ch.rid]
-	case variant == 4 && len(r.model.byRole(roleWitness)) > 0:
-		ch, why = c07Change{[]string{"add-voter", "add-nonvoting"}[s.C%2], pick(r.model.byRole(roleWitness)), ""}, "witness-changes-role"
-		ch.addr = r.model.addr[ch.rid]
-	case variant == 5 && len(r.model.byRole(roleNonVoting)) > 0:
-		ch, why = c07Change{"add-witness", pick(r.model.byRole(roleNonVoting)), ""}, "nonvoting-as-witness"
-		ch.addr = r.model.addr[ch.rid]
-	case r.p.Ordered && len(r.oldCCIDs) > 0 && sp != nil:
-		// a stale change id in ordered mode
-		ch, why = c07Change{"add-nonvoting", r.nextID, sp.Addr}, "stale-change-id"
-		r.nextID++
-		ccid = r.oldCCIDs[s.C%len(r.oldCCIDs)]
-		if ccid == m.ConfigChangeID {
-			r.label("skipped-invalid")
-			return true
-		}
-	default:
-		ids := append(append(r.model.voters(), r.model.byRole(roleNonVoting)...), r.model.byRole(roleWitness)...)
-		ch, why = c07Change{[]string{"add-voter", "add-nonvoting", "add-witness"}[s.C%3], r.nextID, r.model.addr[pick(ids)]}, "address-already-used"
-		r.nextID++
+	})
+	if ws := r.model.byRole(roleWitness); len(ws) > 0 {
+		variants = append(variants, func() {
+			ch, why = c07Change{[]string{"add-voter", "add-nonvoting"}[s.C%2], pick(ws), ""}, "witness-changes-role"
+			ch.addr = r.model.addr[ch.rid]
+		})
 	}
+	if nvs := r.model.byRole(roleNonVoting); len(nvs) > 0 {
+		variants = append(variants, func() {
+			ch, why = c07Change{"add-witness", pick(nvs), ""}, "nonvoting-as-witness"
+			ch.addr = r.model.addr[ch.rid]
+		})
+	}
+	if r.p.Ordered && sp != nil {
+		var stale []uint64
+		for _, id := range r.oldCCIDs {
+			if id != m.ConfigChangeID {
+				stale = append(stale, id)
+			}
+		}
+		if len(stale) > 0 {
+			f := func() {
+				// a stale change id in ordered mode
+				ch, why = c07Change{"add-nonvoting", r.nextID, sp.Addr}, "stale-change-id"
+				r.nextID++
+				ccid = stale[s.C%len(stale)]
+			}
+			variants = append(variants, f, f)
+		}
+	}
+	variants[s.A%len(variants)]()
 	err := r.request(h, ch, ccid, 2*time.Second)
 	r.label("invalid-" + why)
 	if err == nil {
